@@ -83,6 +83,11 @@ impl Store {
                     let po = (o % PAGE as u64) as usize;
                     let n = (PAGE - po).min(data.len() - i);
                     let f = *fill;
+                    // writing the fill value over an untouched page changes nothing: keep it unmaterialised
+                    if !pages.contains_key(&pg) && data[i..i + n].iter().all(|b| *b == f) {
+                        i += n;
+                        continue;
+                    }
                     let p = pages.entry(pg).or_insert_with(|| Box::new([f; PAGE]));
                     p[po..po + n].copy_from_slice(&data[i..i + n]);
                     i += n;
